@@ -19,7 +19,7 @@ def optNat (s : String) : Option Nat := if s == "-" then none else s.toNat?
 /-- the `h*` lines of a case grouped by step index (built once per case) -/
 abbrev Buckets := Array (Array (Array String))
 
-def hKeys : List String := ["hst", "hn", "he", "himp", "hop", "hret"]
+def hKeys : List String := ["hst", "hn", "he", "himp", "hop", "hret", "hlist"]
 
 def mkBuckets (c : Case) : Buckets := Id.run do
   let mut b : Buckets := #[]
@@ -283,6 +283,20 @@ def checkOps (c0 : Case) : CaseResult := Id.run do
           if m.t.nodes.length != cur.s.t.nodes.length || m.t.edges.length != cur.s.t.edges.length then nontrivial := true
           if m.delJ.length != cur.s.delJ.length then stats := bumpStats stats "ops.junction-deleted" 1
           if m.newJ.length != cur.s.newJ.length then stats := bumpStats stats "ops.junction-split" 1
+        -- `listJunctionsAndConnectors` of the real code vs. the model's `listNode`, on libavoid's state
+        match (stepLines c "hlist" i).head?, after.anchor with
+        | some l, some an =>
+          let toks := (l.extract 1 l.size).toList
+          let jsC := (toks.drop 1).takeWhile (· != "C")
+          let csC := (toks.dropWhile (· != "C")).drop 1
+          let fuel := 4 * (after.s.t.nodes.length + after.s.t.edges.length + 2)
+          match listNode fuel after.s.t an none ([], []) with
+          | some (js, cs) =>
+            stats := bumpStats stats "ops.list-compared" 1
+            if js.map toString != jsC || cs.map onStr != csC then
+              diverge := diverge <|> some s!"step {i}: listJunctionsAndConnectors differs: model {js} {cs.map onStr} libavoid {jsC} {csC}"
+          | none => diverge := diverge <|> some s!"step {i}: the model's listNode runs out of fuel / meets a dangling pointer"
+        | _, _ => pure ()
         -- what the theorems promise, decided on libavoid's own output
         if kinds.all treePreserving && beforeOk && !afterOk then
           specfail := specfail <|> some s!"step {i} ({kinds}): libavoid's hyperedge tree is not a well-formed tree after the operation (wfb={wfb after.s.t} isTree={isTree after.s.t.graphV after.s.t.graphE}; {after.s.t.nodes.length} nodes, {after.s.t.edges.length} edges)"
